@@ -1,9 +1,10 @@
 import KdVerif.Spec.PyIRCsExpected
 import KdVerif.Model.Callstacks
 /-
-  The expected IR of `insert_image` and of the frame loop of `feed_generator` (`Spec/PyIRCsExpected`), run by the
-  interpreter of `Model/PyIRCs`, is `Callstacks.insertImage` / `Callstacks.lookupAll` — for every pair of lists, with
-  the same exception where the model has one.  Core Lean only.
+  The expected IR of `insert_image`, of the frame loop, of the whole `feed_generator` and of `PyKdebugParser.callstacks`
+  (`Spec/PyIRCsExpected`), run by the interpreter of `Model/PyIRCs`, is `Callstacks.insertImage` / `Callstacks.lookupAll` /
+  `Callstacks.step` iterated — for every pair of lists and every list of traces, with the same exception where the model
+  has one.  Core Lean only.
 -/
 namespace KdVerif.PyIRCs
 open Callstacks
@@ -20,6 +21,12 @@ theorem run_insertImage (st : Images) (a : Nat) (u : Uuid) :
     | ok i =>
       simp [run, Expected.insertImage, exec, eval, Env.ofArgs, Env.set, hm, Callstacks.insertImage, hb, pyInsertPos]
 
+/-- `self.insert_image(a, u)` answered by the expected `insert_image` is the model's `insertImage`. -/
+theorem callInsertImage_expected (st : Images) (a : Nat) (u : Uuid) :
+    callInsertImage Expected.insertImage (.int a) (.uuid u) st = Callstacks.insertImage st a u := by
+  unfold callInsertImage
+  rw [run_insertImage]
+  cases Callstacks.insertImage st a u <;> rfl
 
 theorem pyIndex_pred {α : Type} (l : List α) (i : Nat) (hi : i ≠ 0) : pyIndex l ((i : Int) - 1) = l[i - 1]? := by
   have h0 : (0 : Int) ≤ (i : Int) - 1 := by omega
@@ -27,94 +34,384 @@ theorem pyIndex_pred {α : Type} (l : List α) (i : Nat) (hi : i ≠ 0) : pyInde
   unfold pyIndex
   rw [if_pos h0, h1]
 
-theorem exec_frameBody (env : Env) (st : Images) (f : Nat) (acc : List FrameV)
-    (h1 : env 1 = some (.frames acc)) (h2 : env 2 = some (.int f)) :
+/-- One iteration of the frame loop, wherever its three locals are numbered: `lookupFrame`'s frame is appended to
+    `frames`; nothing else but `index_` is written; no value is yielded; the lists are untouched. -/
+theorem exec_frameBodyAt (call : Val → Val → Images → Except PyErr Images) (fs fr ix : Nat) (hfi : fs ≠ ix) (hri : fr ≠ ix)
+    (env : Env) (st : Images) (f : Nat) (acc : List FrameV)
+    (h1 : env fs = some (.frames acc)) (h2 : env fr = some (.int f)) :
     match lookupFrame st f with
-    | .error e => exec Expected.frameBody env st = .error e
-    | .ok fr => ∃ env', env' 1 = some (.frames (acc ++ [ofFrame fr])) ∧
-        exec Expected.frameBody env st = .ok (.normal, env', st) := by
+    | .error e => exec call (Expected.frameBodyAt fs fr ix) env st = ([], .error e)
+    | .ok frm => ∃ env', env' fs = some (.frames (acc ++ [ofFrame frm])) ∧ (∀ j, j ≠ fs → j ≠ ix → env' j = env j) ∧
+        exec call (Expected.frameBodyAt fs fr ix) env st = ([], .ok (.normal, env', st)) := by
+  have hfi' : ¬ fs = ix := hfi
+  have hri' : ¬ fr = ix := hri
   cases hb : Callstacks.bisect st.addrs f with
-  | error e => simp [lookupFrame, hb, Expected.frameBody, exec, eval, h2]
+  | error e => simp [lookupFrame, hb, Expected.frameBodyAt, exec, eval, h2]
   | ok i =>
     by_cases hi : i = 0
     · subst hi
       simp only [lookupFrame, hb, if_true]
-      refine ⟨_, ?_, by
-        simp [Expected.frameBody, exec, eval, h2, hb, Env.set, h1]
-        rfl⟩
-      simp [Env.set, ofFrame]
+      refine ⟨((env.set ix (.int (-1))).set fs (.frames (acc ++ [⟨f, Option.none, Option.none⟩]))), ?_, ?_, ?_⟩
+      · simp [Env.set, ofFrame]
+      · intro j hj hk; simp [Env.set, hj, hk]
+      · simp [Expected.frameBodyAt, exec, eval, h2, hb, Env.set, h1, hfi', hri']
     · have hgt : ((i : Int) - 1 > -1) := by omega
       simp only [lookupFrame, hb, hi, if_false]
       cases hu : st.uuids[i - 1]? with
       | none =>
-        simp [Expected.frameBody, exec, eval, h2, hb, Env.set, hgt, pyIndex_pred _ _ hi, hu]
+        simp [Expected.frameBodyAt, exec, eval, h2, hb, Env.set, hgt, pyIndex_pred _ _ hi, hu, hri']
       | some u =>
         cases ha : st.addrs[i - 1]? with
         | none =>
-          simp [Expected.frameBody, exec, eval, h2, hb, Env.set, hgt, pyIndex_pred _ _ hi, hu, ha]
+          simp [Expected.frameBodyAt, exec, eval, h2, hb, Env.set, hgt, pyIndex_pred _ _ hi, hu, ha, hri']
         | some a =>
-          refine ⟨_, ?_, by
-            simp [Expected.frameBody, exec, eval, h2, hb, Env.set, hgt, pyIndex_pred _ _ hi, hu, ha, h1]
-            rfl⟩
-          simp [Env.set, ofFrame]
+          refine ⟨((env.set ix (.int ((i : Int) - 1))).set fs
+            (.frames (acc ++ [⟨f, some u, some ((f : Int) - (a : Int))⟩]))), ?_, ?_, ?_⟩
+          · simp [Env.set, ofFrame]
+          · intro j hj hk; simp [Env.set, hj, hk]
+          · simp [Expected.frameBodyAt, exec, eval, h2, hb, Env.set, hgt, pyIndex_pred _ _ hi, hu, ha, h1, hfi', hri']
 
-
-theorem forLoop_frames (st : Images) (cs : List Nat) : ∀ (env : Env) (acc : List FrameV),
-    env 1 = some (.frames acc) →
+/-- The frame loop over any `cs_frames`: `lookupAll`'s frames are appended; only the loop's own three locals are written. -/
+theorem forLoop_framesAt (call : Val → Val → Images → Except PyErr Images) (fs fr ix : Nat) (hfi : fs ≠ ix) (hri : fr ≠ ix)
+    (hfr : fs ≠ fr) (st : Images) (cs : List Nat) : ∀ (env : Env) (acc : List FrameV),
+    env fs = some (.frames acc) →
     match lookupAll st cs with
-    | .error e => forLoop (fun env st => exec Expected.frameBody env st) 2 cs env st = .error e
-    | .ok frs => ∃ env', env' 1 = some (.frames (acc ++ frs.map ofFrame)) ∧
-        forLoop (fun env st => exec Expected.frameBody env st) 2 cs env st = .ok (.normal, env', st) := by
+    | .error e => forLoop (fun env st => exec call (Expected.frameBodyAt fs fr ix) env st) fr
+        (cs.map (fun (k : Nat) => Val.int (k : Int))) env st = ([], .error e)
+    | .ok frs => ∃ env', env' fs = some (.frames (acc ++ frs.map ofFrame)) ∧
+        (∀ j, j ≠ fs → j ≠ fr → j ≠ ix → env' j = env j) ∧
+        forLoop (fun env st => exec call (Expected.frameBodyAt fs fr ix) env st) fr
+          (cs.map (fun (k : Nat) => Val.int (k : Int))) env st = ([], .ok (.normal, env', st)) := by
   induction cs with
-  | nil => intro env acc h; exact ⟨env, by simpa [lookupAll] using h, rfl⟩
-  | cons f fs ih =>
+  | nil => intro env acc h; exact ⟨env, by simpa [lookupAll] using h, fun _ _ _ _ => rfl, rfl⟩
+  | cons f fs' ih =>
     intro env acc h
-    have hb := exec_frameBody (env.set 2 (.int f)) st f acc (by simpa [Env.set] using h) (by simp [Env.set])
+    have hb := exec_frameBodyAt call fs fr ix hfi hri (env.set fr (.int f)) st f acc
+      (by simpa [Env.set, hfr] using h) (by simp [Env.set])
     cases hl : lookupFrame st f with
     | error e =>
       rw [hl] at hb
       simp [lookupAll, hl, forLoop, hb]
-    | ok fr =>
+    | ok frm =>
       rw [hl] at hb
-      obtain ⟨env1, h1, he⟩ := hb
-      have := ih env1 (acc ++ [ofFrame fr]) h1
-      cases hr : lookupAll st fs with
+      obtain ⟨env1, h1, hp1, he⟩ := hb
+      have := ih env1 (acc ++ [ofFrame frm]) h1
+      cases hr : lookupAll st fs' with
       | error e =>
         rw [hr] at this
         simp [lookupAll, hl, hr, forLoop, he, this]
       | ok frs =>
         rw [hr] at this
-        obtain ⟨env2, h2, he2⟩ := this
+        obtain ⟨env2, h2, hp2, he2⟩ := this
         simp only [lookupAll, hl, hr]
-        exact ⟨env2, by simpa using h2, by simp [forLoop, he, he2]⟩
+        refine ⟨env2, by simpa using h2, ?_, by simp [forLoop, he, he2]⟩
+        intro j hj hk hx
+        rw [hp2 j hj hk hx, hp1 j hj hx]
+        simp [Env.set, hk]
 
-theorem exec_forIn (v : Nat) (it : Expr) (body next : Stmt) (env : Env) (st : Images) :
-    exec (.forIn v it body next) env st =
+theorem exec_forIn (call : Val → Val → Images → Except PyErr Images) (v : Nat) (it : Expr) (body next : Stmt)
+    (env : Env) (st : Images) :
+    exec call (.forIn v it body next) env st =
       match eval st env it with
-      | .ok (.nats l) =>
-        (match forLoop (fun env st => exec body env st) v l env st with
-         | .ok (.normal, env', st') => exec next env' st'
-         | r => r)
-      | .ok _ => .error .unmodelled
-      | .error x => .error x := by
+      | .error x => ([], .error x)
+      | .ok iv =>
+        match items iv with
+        | Option.none => ([], .error (if iv = .none then .typeError else .unmodelled))
+        | some (l, err) =>
+          match forLoop (fun env st => exec call body env st) v l env st with
+          | (o, .error e) => (o, .error e)
+          | (o, .ok (.ret r, env', st')) => (o, .ok (.ret r, env', st'))
+          | (o, .ok (.normal, env', st')) =>
+            match err with
+            | some e => (o, .error e)
+            | Option.none => ((o ++ (exec call next env' st').1), (exec call next env' st').2) := by
   rw [exec]; rfl
 
-theorem run_frameLoop (st : Images) (cs : List Nat) :
-    run Expected.frameLoop [.sample cs] st =
+theorem run_frameLoop (st : Images) (kts : List KT) (cs : List Nat) :
+    run Expected.frameLoop [.trace (.sample kts (some cs))] st =
       match lookupAll st cs with
       | .ok frs => .ok (.frames (frs.map ofFrame), st)
       | .error e => .error e := by
-  have h := forLoop_frames st cs ((Env.ofArgs [.sample cs]).set 1 (.frames [])) [] (by simp [Env.set])
-  have hit : eval st ((Env.ofArgs [.sample cs]).set 1 (.frames [])) (.csFrames (.var 0)) = .ok (.nats cs) := by
+  have h := forLoop_framesAt noCall 1 2 3 (by decide) (by decide) (by decide) st cs
+    ((Env.ofArgs [.trace (.sample kts (some cs))]).set 1 (.frames [])) [] (by simp [Env.set])
+  have hit : eval st ((Env.ofArgs [.trace (.sample kts (some cs))]).set 1 (.frames [])) (.csFrames (.var 0))
+      = .ok (.nats cs) := by
     simp [eval, Env.set, Env.ofArgs]
-  simp only [run, Expected.frameLoop, List.length_cons, List.length_nil, ne_eq, not_true_eq_false, if_false]
+  simp only [run, Expected.frameLoop, Expected.frameBody, List.length_cons, List.length_nil, ne_eq, not_true_eq_false,
+    if_false]
   rw [exec, exec_forIn]
-  simp only [hit]
+  simp only [hit, items]
   cases hl : lookupAll st cs with
   | error e => rw [hl] at h; simp [h]
   | ok frs =>
     rw [hl] at h
-    obtain ⟨env', h1, he⟩ := h
+    obtain ⟨env', h1, _, he⟩ := h
     simp [he, exec, eval, h1]
+
+/-! ### the whole `feed_generator` -/
+
+/-- One iteration of `for trace in generator`, stated on the trace object: the three-way dispatch in terms of the model's
+    `lookupAll` / `insertImage` / `insertAll` (a sample's callstack is stamped by `ktraces[0]`, read AFTER the frames
+    were looked up). -/
+def stepTrace (st : Images) : Trace → Except PyErr (Images × Option CallstackV)
+  | .sample kts (some cs) =>
+    match lookupAll st cs with
+    | .error e => .error e
+    | .ok frs =>
+      match kts with
+      | [] => .error .indexError
+      | k :: _ => .ok (st, some ⟨k.timestamp, k.tid, frs.map ofFrame⟩)
+  | .sample _ Option.none => .ok (st, Option.none)
+  | .image a u =>
+    match Callstacks.insertImage st a u with
+    | .error e => .error e
+    | .ok st' => .ok (st', Option.none)
+  | .launch imgs =>
+    match insertAll st imgs with
+    | .error e => .error e
+    | .ok st' => .ok (st', Option.none)
+  | .other => .ok (st, Option.none)
+
+/-- `stepTrace` iterated: the callstacks delivered, then the final lists or the exception. -/
+def feedTrace (st : Images) : List Trace → GenRes
+  | [] => ([], .ok st)
+  | t :: ts =>
+    match stepTrace st t with
+    | .error e => ([], .error e)
+    | .ok (st', o) => ((o.toList.map Val.callstack) ++ (feedTrace st' ts).1, (feedTrace st' ts).2)
+
+/-- the generator's own exception surfaces when everything it delivered was consumed without one -/
+def thenRaise (err : Option PyErr) (r : GenRes) : GenRes :=
+  match r.2, err with
+  | .ok _, some e => (r.1, .error e)
+  | _, _ => r
+
+/-- the model's step on an item is `stepTrace` on the trace object of the item -/
+theorem stepTrace_traceOf (st : Images) (it : Item) :
+    stepTrace st (traceOf it) =
+      match step st it with
+      | .error e => .error e
+      | .ok (st', o) => .ok (st', o.map ofCallstack) := by
+  cases it with
+  | sample first rest =>
+    simp only [traceOf, step]
+    cases hc : csFrames first rest with
+    | none => simp [stepTrace]
+    | some cs =>
+      simp only [stepTrace, List.map_cons]
+      cases lookupAll st cs <;> simp [ofCallstack]
+  | image a u =>
+    simp only [traceOf, step, stepTrace]
+    cases Callstacks.insertImage st a u <;> simp
+  | launch imgs =>
+    simp only [traceOf, step, stepTrace]
+    cases insertAll st (sortByAddr imgs) <;> simp
+  | other => simp [traceOf, step, stepTrace]
+
+/-- the launch loop `for image in trace.uuid_map_a: self.insert_image(image.load_addr, image.uuid)` is `insertAll` -/
+theorem forLoop_launch (imgs : List (Nat × Uuid)) : ∀ (env : Env) (st : Images),
+    match insertAll st imgs with
+    | .error e => forLoop (fun env st => exec (callInsertImage Expected.insertImage)
+        (.callInsert (.loadAddr (.var 5)) (.uuidOf (.var 5)) .done) env st) 5
+        (imgs.map (fun p => Val.img p.1 p.2)) env st = ([], .error e)
+    | .ok st' => ∃ env', forLoop (fun env st => exec (callInsertImage Expected.insertImage)
+        (.callInsert (.loadAddr (.var 5)) (.uuidOf (.var 5)) .done) env st) 5
+        (imgs.map (fun p => Val.img p.1 p.2)) env st = ([], .ok (.normal, env', st')) := by
+  induction imgs with
+  | nil => intro env st; exact ⟨env, rfl⟩
+  | cons p rest ih =>
+    intro env st
+    obtain ⟨a, u⟩ := p
+    have hb : exec (callInsertImage Expected.insertImage) (.callInsert (.loadAddr (.var 5)) (.uuidOf (.var 5)) .done)
+        (env.set 5 (.img a u)) st =
+        match Callstacks.insertImage st a u with
+        | .error e => ([], .error e)
+        | .ok st' => ([], .ok (.normal, env.set 5 (.img a u), st')) := by
+      simp only [exec, eval, Env.set, if_true, callInsertImage_expected]
+      cases Callstacks.insertImage st a u <;> rfl
+    cases hi : Callstacks.insertImage st a u with
+    | error e =>
+      rw [hi] at hb
+      simp only [insertAll, hi, List.map_cons, forLoop, hb]
+    | ok st1 =>
+      rw [hi] at hb
+      have := ih (env.set 5 (.img a u)) st1
+      simp only [insertAll, hi, List.map_cons, forLoop, hb]
+      cases hr : insertAll st1 rest with
+      | error e => rw [hr] at this; simp [this]
+      | ok st2 =>
+        rw [hr] at this
+        obtain ⟨env', he⟩ := this
+        exact ⟨env', by simp [he]⟩
+
+/-- the branch of a qualifying sample -/
+theorem exec_sampleBranch (call : Val → Val → Images → Except PyErr Images) (env : Env) (st : Images) (kts : List KT)
+    (cs : List Nat) (h : env 1 = some (.trace (.sample kts (some cs)))) :
+    match stepTrace st (.sample kts (some cs)) with
+    | .error e => exec call Expected.sampleBranch env st = ([], .error e)
+    | .ok (st', o) => ∃ env', exec call Expected.sampleBranch env st =
+        (o.toList.map Val.callstack, .ok (.normal, env', st')) := by
+  have hl := forLoop_framesAt call 2 3 4 (by decide) (by decide) (by decide) st cs (env.set 2 (.frames [])) []
+    (by simp [Env.set])
+  have hit : eval st (env.set 2 (.frames [])) (.csFrames (.var 1)) = .ok (.nats cs) := by
+    simp [eval, Env.set, h]
+  simp only [Expected.sampleBranch, stepTrace]
+  rw [exec, exec_forIn]
+  simp only [hit, items]
+  cases hla : lookupAll st cs with
+  | error e => rw [hla] at hl; simp [hl]
+  | ok frs =>
+    rw [hla] at hl
+    obtain ⟨env', h1, hp, he⟩ := hl
+    have h1' : env' 1 = some (.trace (.sample kts (some cs))) := by
+      rw [hp 1 (by decide) (by decide) (by decide)]; simpa [Env.set] using h
+    cases kts with
+    | nil => simp [he, exec, eval, h1', pyIndex]
+    | cons k rest =>
+      exact ⟨env', by simp [he, exec, eval, h1', h1, pyIndex]⟩
+
+/-- the body of `for trace in generator` on any trace is `stepTrace` -/
+theorem exec_traceBody (env : Env) (st : Images) (t : Trace) (h : env 1 = some (.trace t)) :
+    match stepTrace st t with
+    | .error e => exec (callInsertImage Expected.insertImage) Expected.traceBody env st = ([], .error e)
+    | .ok (st', o) => ∃ env', exec (callInsertImage Expected.insertImage) Expected.traceBody env st =
+        (o.toList.map Val.callstack, .ok (.normal, env', st')) := by
+  cases t with
+  | sample kts cs =>
+    cases cs with
+    | none => exact ⟨env, by simp [Expected.traceBody, exec, eval, h, Trace.isA]⟩
+    | some cs =>
+      have hs := exec_sampleBranch (callInsertImage Expected.insertImage) env st kts cs h
+      have hc : exec (callInsertImage Expected.insertImage) Expected.traceBody env st =
+          exec (callInsertImage Expected.insertImage) Expected.sampleBranch env st := by
+        simp [Expected.traceBody, exec, eval, h, Trace.isA]
+      rw [hc]; exact hs
+  | image a u =>
+    simp only [stepTrace]
+    have hc : exec (callInsertImage Expected.insertImage) Expected.traceBody env st =
+        match Callstacks.insertImage st a u with
+        | .error e => ([], .error e)
+        | .ok st' => ([], .ok (.normal, env, st')) := by
+      simp only [Expected.traceBody, exec, eval, h, Trace.isA, callInsertImage_expected]
+      cases Callstacks.insertImage st a u <;> rfl
+    rw [hc]
+    cases Callstacks.insertImage st a u with
+    | error e => rfl
+    | ok st' => exact ⟨env, rfl⟩
+  | launch imgs =>
+    simp only [stepTrace]
+    have hl := forLoop_launch imgs env st
+    have hc : exec (callInsertImage Expected.insertImage) Expected.traceBody env st =
+        exec (callInsertImage Expected.insertImage) Expected.launchBranch env st := by
+      simp [Expected.traceBody, exec, eval, h, Trace.isA]
+    have hit : eval st env (.uuidMapA (.var 1)) = .ok (.imgs imgs) := by simp [eval, h]
+    rw [hc, Expected.launchBranch, exec_forIn]
+    simp only [hit, items]
+    cases hi : insertAll st imgs with
+    | error e => rw [hi] at hl; rw [hl]
+    | ok st' =>
+      rw [hi] at hl
+      obtain ⟨env', he⟩ := hl
+      exact ⟨env', by rw [he]; simp [exec]⟩
+  | other => exact ⟨env, by simp [Expected.traceBody, exec, eval, h, Trace.isA]⟩
+
+/-- the loop over the traces is `feedTrace` -/
+theorem forLoop_traces (ts : List Trace) : ∀ (env : Env) (st : Images),
+    match (feedTrace st ts).2 with
+    | .error e => forLoop (fun env st => exec (callInsertImage Expected.insertImage) Expected.traceBody env st) 1
+        (ts.map Val.trace) env st = ((feedTrace st ts).1, .error e)
+    | .ok st' => ∃ env', forLoop (fun env st => exec (callInsertImage Expected.insertImage) Expected.traceBody env st) 1
+        (ts.map Val.trace) env st = ((feedTrace st ts).1, .ok (.normal, env', st')) := by
+  induction ts with
+  | nil => intro env st; exact ⟨env, rfl⟩
+  | cons t rest ih =>
+    intro env st
+    have hb := exec_traceBody (env.set 1 (.trace t)) st t (by simp [Env.set])
+    simp only [feedTrace, List.map_cons, forLoop]
+    cases hs : stepTrace st t with
+    | error e => rw [hs] at hb; simp [hb]
+    | ok p =>
+      obtain ⟨st1, o⟩ := p
+      rw [hs] at hb
+      obtain ⟨env1, he⟩ := hb
+      have := ih env1 st1
+      simp only [he]
+      cases hr : (feedTrace st1 rest).2 with
+      | error e => rw [hr] at this; simp [this]
+      | ok st2 =>
+        rw [hr] at this
+        obtain ⟨env2, he2⟩ := this
+        exact ⟨env2, by simp [he2]⟩
+
+/-- **The expected `feed_generator`, interpreted, is `feedTrace`** — for every list of traces, every exception of the
+    trace generator, every pair of lists. -/
+theorem runFeed_expected (ts : List Trace) (err : Option PyErr) (st : Images) :
+    runFeed Expected.prog ts err st = thenRaise err (feedTrace st ts) := by
+  have h := forLoop_traces ts (Env.ofArgs [.gen ts err]) st
+  have hit : eval st (Env.ofArgs [.gen ts err]) (.var 0) = .ok (.gen ts err) := by simp [eval, Env.ofArgs]
+  simp only [runFeed, runGen, Expected.prog, Expected.feedGenerator, List.length_cons, List.length_nil, ne_eq,
+    not_true_eq_false, if_false]
+  rw [exec_forIn]
+  simp only [hit, items]
+  cases hr : (feedTrace st ts).2 with
+  | error e =>
+    rw [hr] at h
+    rw [h]
+    cases err <;> simp [thenRaise, hr] <;> exact Prod.ext rfl hr.symm
+  | ok st' =>
+    rw [hr] at h
+    obtain ⟨env', he⟩ := h
+    rw [he]
+    cases err with
+    | none => simp [thenRaise, hr, exec, eval]; exact Prod.ext rfl hr.symm
+    | some e => simp [thenRaise, hr]
+
+/-! ### `PyKdebugParser.callstacks` -/
+
+/-- **A request starts from EMPTY image lists**: whatever the object's two lists hold when `callstacks()` is called,
+    the expected body clears both, builds the parser on exactly these two list objects, and the result is the expected
+    `feed_generator` over the request's traces run from `Images.empty`. -/
+theorem runRequest_expected (ts : List Trace) (err : Option PyErr) (st : Images) :
+    runRequest Expected.prog ts err st = runFeed Expected.prog ts err Images.empty := by
+  simp [runRequest, Expected.prog, Expected.callstacks, execReq, runInit, Expected.init, ParserObj.set, Images.empty]
+
+/-! ### from the trace objects back to the model's items -/
+
+/-- `feedTrace` on the trace objects of a list of items, against `Callstacks.feedFrom`: where the model delivers, the
+    same callstacks and the same final lists; where it raises, the same exception, after exactly the callstacks the model
+    delivers for the items before the failing one. -/
+theorem feedTrace_traceOf (s : List Item) : ∀ (st : Images),
+    match feedFrom st s with
+    | .ok (st', cs) => feedTrace st (s.map traceOf) = (cs.map (fun c => Val.callstack (ofCallstack c)), .ok st')
+    | .error e => ∃ pre it post st₁ cs, s = pre ++ it :: post ∧ feedFrom st pre = .ok (st₁, cs) ∧
+        step st₁ it = .error e ∧
+        feedTrace st (s.map traceOf) = (cs.map (fun c => Val.callstack (ofCallstack c)), .error e) := by
+  induction s with
+  | nil => intro st; simp [feedFrom, feedTrace]
+  | cons it rest ih =>
+    intro st
+    have hs := stepTrace_traceOf st it
+    cases hst : step st it with
+    | error e =>
+      rw [hst] at hs
+      simp only [feedFrom, hst]
+      exact ⟨[], it, rest, st, [], rfl, rfl, hst, by simp [feedTrace, hs]⟩
+    | ok p =>
+      obtain ⟨st1, o⟩ := p
+      rw [hst] at hs
+      have := ih st1
+      simp only [feedFrom, hst]
+      cases hr : feedFrom st1 rest with
+      | error e =>
+        rw [hr] at this
+        obtain ⟨pre, it', post, st₁, cs, e1, e2, e3, e4⟩ := this
+        refine ⟨it :: pre, it', post, st₁, o.toList ++ cs, by simp [e1], by simp [feedFrom, hst, e2], e3, ?_⟩
+        simp only [List.map_cons, feedTrace, hs, e4]
+        cases o <;> simp
+      | ok q =>
+        obtain ⟨st2, cs⟩ := q
+        rw [hr] at this
+        simp only [List.map_cons, feedTrace, hs, this]
+        cases o <;> simp
 
 end KdVerif.PyIRCs
